@@ -237,7 +237,7 @@ def validate(case):
 
 
 def _lattice_case(d):
-    n, bad = _lattice_chunk((d["e"], [d["m"]], d["k"]))
+    n, bad = _lattice_chunk((d["e"], [d["m"]], d["k"], [d["k"]]))
     bad = [b for b in bad if b["k"] == d["k"] and b["axis"] == d["axis"]]
     v = []
     for b in bad:
@@ -309,12 +309,13 @@ def check_case(case):
 # ---- exhaustive lattice at parser level ------------------------------------------
 def _lattice_chunk(args):
     bootstrap.activate()
-    e, ms, kmax = args
+    e, ms, kmax = args[:3]
+    ks = args[3] if len(args) > 3 else range(1, kmax + 1)
     bad = []
     n = 0
     for m in ms:
         step = Decimal(m).scaleb(-e)
-        for k in range(1, kmax + 1):
+        for k in ks:
             for ax, target in (("r", "LAMMPS"), ("rho", "setfl")):
                 n_nr, n_dr, n_cut = NAMES[ax]
                 text = "[Tabulation]\ntarget : %s\n%s : %s\n%s : %s\n" % (target, n_cut, dec_str(step * k), n_dr, dec_str(step))
@@ -332,6 +333,12 @@ def _lattice_chunk(args):
 def extra(tier, seed, record):
     kmax = 25 if tier == "quick" else 2000
     jobs = [(e, list(range(m0, m0 + 5)), kmax) for e in range(1, 5) for m0 in range(1, 51, 5)]
+    # large tables (the quotient's rounding error grows with k): a sparse sweep of 2001..20000 rows
+    big = list(range(2001 + seed % 7, 20001, 61 if tier == "quick" else 3))
+    for e in (2, 3, 4):
+        for m in (1, 2, 5, 7, 12, 35):
+            for c in range(0, len(big), 400):
+                jobs.append((e, [m], 0, big[c:c + 400]))
     total = 0
     bad = []
     ctx = multiprocessing.get_context("spawn")
@@ -345,4 +352,5 @@ def extra(tier, seed, record):
         record(case, _lattice_case(case["lattice"]))
     return {"lattice_cases": total, "lattice_failures": len(bad), "lattice_exhaustive": True,
             "lattice": "{m*10^-e : m in 1..50, e in 1..4} x k in 1..%d x {nr/dr/cutoff, nrho/drho/cutoff_rho}, "
-                       "cutoff+step specification at parser level" % kmax}
+                       "cutoff+step specification at parser level (complete); plus a sparse sweep of k in 2001..20000 "
+                       "(every %d-th) for m in {1,2,5,7,12,35}, e in {2,3,4}" % (kmax, 61 if tier == "quick" else 3)}
